@@ -311,7 +311,7 @@ def stepSqrt (st : St) (ts : List String) : St × String :=
   | _ => (st, "bad-op")
 
 def stepGnat (st : St) (ts : List String) : St × String :=
-  let rotate := st.kind == Kind.gnat
+  let ord := childOrder (st.kind == Kind.gnat)
   let g := st.g
   let fuel (b : Bool) : String := if b then " fuel-exhausted" else ""
   match ts with
@@ -326,7 +326,7 @@ def stepGnat (st : St) (ts : List String) : St × String :=
   | "nst" :: rest =>
     match pt? st rest with
     | some (q, []) =>
-      match g.nearest st.dist 1 rotate q with
+      match g.nearest st.dist 1 ord q with
       | (some (d, _), _, ex) => (st, "d=" ++ toString d ++ fuel ex)
       | (none, _, ex) => (st, "none" ++ fuel ex)
     | _ => (st, "bad-op")
@@ -335,7 +335,7 @@ def stepGnat (st : St) (ts : List String) : St × String :=
     | some (q, [k]) =>
       match k.toNat? with
       | some k =>
-        let (ans, _, ex) := g.nearestK st.dist 1 rotate q k
+        let (ans, _, ex) := g.nearestK st.dist 1 ord q k
         (st, ansStr (ans.map (·.1)) ++ fuel ex)
       | none => (st, "bad-op")
     | _ => (st, "bad-op")
@@ -344,7 +344,7 @@ def stepGnat (st : St) (ts : List String) : St × String :=
     | some (q, [r]) =>
       match parseInt? r with
       | some r =>
-        let (ans, _, ex) := g.nearestR st.dist rotate q r
+        let (ans, _, ex) := g.nearestR st.dist ord q r
         (st, ansStr (ans.map (·.1)) ++ fuel ex)
       | none => (st, "bad-op")
     | _ => (st, "bad-op")
